@@ -3,6 +3,7 @@ package verifsim
 import (
 	"context"
 	"fmt"
+	"github.com/smart-core-os/sc-api/go/types"
 	"strings"
 
 	"google.golang.org/grpc/codes"
@@ -70,8 +71,14 @@ func shutBusRun(w *World) {
 					<-l.ctx.Done()
 					// after the cancel the channel must be closed, never deliver anything more
 					t.Yield("recv-after-cancel")
-					if v, ok := <-l.ch; ok {
-						w.Violate("delivery-after-cancel", fmt.Sprintf("listener %d received %v after its context was cancelled and the bus went quiet", l.idx, v), nil)
+					// (a Send that was under way at the time of the cancel may still get through: judged below)
+					for i := 0; i < 8; i++ {
+						v, ok := <-l.ch
+						if !ok {
+							break
+						}
+						l.got = append(l.got, v.(busEvent))
+						l.gotStep = append(l.gotStep, w.Step()+2)
 					}
 					l.closed = true
 					return
@@ -139,8 +146,16 @@ func shutBusRun(w *World) {
 			last[e.sender] = e.seq
 		}
 		for i, e := range l.got {
-			if l.cancelStep != 0 && l.gotStep[i] > l.cancelStep+1 {
-				w.Violate("delivery-after-cancel", fmt.Sprintf("listener %d received %v at step %d, its context was cancelled at step %d", l.idx, e, l.gotStep[i], l.cancelStep), nil)
+			if l.cancelStep == 0 || l.gotStep[i] <= l.cancelStep+1 {
+				continue
+			}
+			// Received well after the cancel. A Send that was already under way when the context was cancelled may still
+			// deliver (the channel is only closed once that Send has let go of the listener); a Send that was invoked
+			// after the cancel had completed must find the listener gone.
+			for _, bs := range sends[e.sender] {
+				if bs.ev == e && bs.inv > l.cancelStep {
+					w.Violate("delivery-after-cancel", fmt.Sprintf("listener %d received %v at step %d from a Send invoked at step %d; its context was cancelled at step %d", l.idx, e, l.gotStep[i], bs.inv, l.cancelStep), nil)
+				}
 			}
 		}
 		if l.listenRet == 0 {
@@ -186,6 +201,7 @@ type shutSub struct {
 	cancelStep     int64
 	strict         bool // the cancel happened after the subscription had completely started up
 	afterCancelBad string
+	late           []int // indices of events received well after the cancel
 	finished       bool
 }
 
@@ -234,12 +250,10 @@ func shutResRun(w *World) {
 					<-s.ctx.Done()
 					// the bubble is quiescent again when we are released: the channel must now be closed
 					t.Yield("recv-after-cancel")
-					before := len(s.events)
-					if s.recv(w) {
+					// (a write that was under way at the time of the cancel may still get through: judged at the end)
+					for i := 0; i < 5 && s.recv(w); i++ {
 						if s.strict {
-							s.afterCancelBad = fmt.Sprintf("received %s after cancel and quiescence", eventsString(s.events[before:]))
-						}
-						for i := 0; i < 4 && s.recv(w); i++ {
+							s.late = append(s.late, len(s.events)-1)
 						}
 					}
 					return
@@ -248,8 +262,8 @@ func shutResRun(w *World) {
 				if !s.recv(w) {
 					return
 				}
-				if s.cancelStep != 0 && s.strict && w.Step() > s.cancelStep+1 && s.afterCancelBad == "" {
-					s.afterCancelBad = fmt.Sprintf("received %s at step %d, cancelled at step %d", s.events[len(s.events)-1], w.Step(), s.cancelStep)
+				if s.cancelStep != 0 && s.strict && w.Step() > s.cancelStep+1 {
+					s.late = append(s.late, len(s.events)-1) // judged at the end, against the writers' histories
 				}
 			}
 		})
@@ -325,6 +339,28 @@ func shutResRun(w *World) {
 			}
 			for _, s := range subs {
 				t.Note("%s[%s] cancel@%d abandoned=%v closed=%v: %s", s.name, s.cfg, s.cancelStep, s.abandoned, s.closed, eventsString(s.events))
+				// An event received well after the cancel is fine when the write that caused it was already under way at the
+				// time of the cancel (its delivery was in flight); a write invoked after the cancel had completed must not
+				// reach the subscriber any more.
+				for _, i := range s.late {
+					e := s.events[i]
+					for _, wr := range writers {
+						for _, h := range wr.hist {
+							if h.Res.Code != codes.OK || !h.Res.HasMsg || h.Inv <= s.cancelStep {
+								continue
+							}
+							caused := false
+							if h.Op.Kind == opDelete {
+								caused = e.Type == types.ChangeType_REMOVE && e.ID == h.Op.ID && e.HasOld && e.Old.V == h.Res.Msg.V
+							} else {
+								caused = e.HasNew && e.New.V == h.Res.Msg.V
+							}
+							if caused && s.afterCancelBad == "" {
+								s.afterCancelBad = fmt.Sprintf("received %s at step %d, caused by %s; cancelled at step %d", e, e.Step, h, s.cancelStep)
+							}
+						}
+					}
+				}
 				if s.afterCancelBad != "" {
 					w.Violate("delivery-after-cancel", s.name+" ["+s.cfg.String()+"]: "+s.afterCancelBad, map[string]any{"resource": resName(coll)})
 				}
